@@ -271,9 +271,14 @@ def parse_case_term(obs):
 
 
 def run_parse(ctx, texts):
-    ok, obs, lg = vlib.run_driver_parallel(ctx.bins["sql"], "parse", [{"text": t} for t in texts], nshards=12)
+    ok, obs, lg = vlib.run_driver_parallel(ctx.bins["sql"], "parse", [{"text": t} for t in texts], nshards=12, resilient=True)
     if not ok or len(obs) != len(texts):
         raise RuntimeError("sql parse driver failed: " + lg[-2000:])
+    # a fatal runtime error (stack exhaustion, out of memory) cannot be recovered in-process: the driver dies on
+    # that text; it is an observation like a panic ("never ... exhausts memory"), reported with the text as input
+    for i, o in enumerate(obs):
+        if "_fatal" in o:
+            obs[i] = {"raw": [], "toks": None, "out": {"k": "panic", "msg": "the process died: " + str(o["_fatal"])[:200]}}
     return obs
 
 
